@@ -749,56 +749,69 @@ fn one_run(root: u64, i: u64, corpus: &Corpus, enumerate: bool, want_sample: boo
 }
 
 pub fn batch(root: u64, scenarios: u64, enumerate_every: u64, workers: usize, corpus: &Corpus) -> Batch {
-    let results = crate::util::run_pool(scenarios, workers, |i| one_run(root, i, corpus, enumerate_every > 0 && i % enumerate_every == 0, i < 3));
     let mut b = Batch { scenarios, corpus_skipped: corpus.skipped as u64, ..Default::default() };
     let mut sigs: std::collections::HashSet<u64> = std::collections::HashSet::new();
     let mut seen = BTreeSet::new();
     let mut coll = BTreeSet::new();
     let mut classes: BTreeSet<String> = BTreeSet::new();
-    for r in &results {
-        b.hashes.push(r.log_hash);
-        b.runs += r.runs + r.single_point_runs;
-        b.steps += r.steps;
-        b.audits += r.audits;
-        if r.discarded {
-            b.discarded += 1;
-        }
-        b.single_point_runs += r.single_point_runs;
-        if r.single_point_runs > 0 {
-            b.single_point_scenarios += 1;
-        }
-        crate::util::merge_counts(&mut b.probes, &r.probes);
-        if !r.family.is_empty() {
-            bump(&mut b.families, &r.family);
-        }
-        sigs.extend(r.nontrivial_sigs.iter().copied());
-        seen.extend(r.kinds_seen.iter().copied());
-        coll.extend(r.kinds_collected.iter().copied());
-        if let Some(s) = &r.sample {
-            b.samples.push(s.clone());
-        }
-        if let Some(v) = &r.failure {
-            if classes.insert(v.class.clone()) || b.violations.len() < 50 {
-                b.violations.push(v.clone());
+    let keep_hashes = std::env::var("VERIF_HASH_DUMP").is_ok();
+    let step = (scenarios / 64).max(1);
+    let mut sampled: Vec<(u64, u64)> = Vec::new();
+    const CHUNK: u64 = 20_000;
+    let mut base = 0u64;
+    while base < scenarios {
+        let n = CHUNK.min(scenarios - base);
+        let results = crate::util::run_pool(n, workers, |k| {
+            let i = base + k;
+            one_run(root, i, corpus, enumerate_every > 0 && i % enumerate_every == 0, i < 3)
+        });
+        for (k, r) in results.iter().enumerate() {
+            let i = base + k as u64;
+            if keep_hashes {
+                b.hashes.push(r.log_hash);
+            }
+            if i % step == 0 && r.failure.is_none() && !r.discarded && sampled.len() < 64 {
+                sampled.push((i, r.log_hash));
+            }
+            b.runs += r.runs + r.single_point_runs;
+            b.steps += r.steps;
+            b.audits += r.audits;
+            if r.discarded {
+                b.discarded += 1;
+            }
+            b.single_point_runs += r.single_point_runs;
+            if r.single_point_runs > 0 {
+                b.single_point_scenarios += 1;
+            }
+            crate::util::merge_counts(&mut b.probes, &r.probes);
+            if !r.family.is_empty() {
+                bump(&mut b.families, &r.family);
+            }
+            sigs.extend(r.nontrivial_sigs.iter().copied());
+            seen.extend(r.kinds_seen.iter().copied());
+            coll.extend(r.kinds_collected.iter().copied());
+            if let Some(s) = &r.sample {
+                b.samples.push(s.clone());
+            }
+            if let Some(v) = &r.failure {
+                if classes.insert(v.class.clone()) || b.violations.len() < 50 {
+                    b.violations.push(v.clone());
+                }
             }
         }
+        base += n;
     }
     b.corpus_used = b.probes.get("corpus_scenarios").copied().unwrap_or(0);
     b.distinct_nontrivial = sigs.len();
     b.state_kinds_seen = seen.len();
     b.state_kinds_collected_after = coll.len();
-    // determinism sample: re-execute ~2 % of the runs (single-threaded) and compare event-log hashes
-    let step = (scenarios / 50).max(1);
-    let mut i = 0;
-    while i < scenarios && b.determinism_reexecuted < 64 {
-        if results[i as usize].failure.is_none() && !results[i as usize].discarded {
-            let again = one_run(root, i, corpus, false, false);
-            b.determinism_reexecuted += 1;
-            if again.log_hash != results[i as usize].log_hash {
-                b.determinism_mismatches += 1;
-            }
+    // determinism sample: re-execute up to 64 runs (single-threaded) and compare event-log hashes
+    for (i, h) in sampled {
+        let again = one_run(root, i, corpus, false, false);
+        b.determinism_reexecuted += 1;
+        if again.log_hash != h {
+            b.determinism_mismatches += 1;
         }
-        i += step;
     }
     b
 }
